@@ -118,7 +118,13 @@ class MonitoredStore(QueueStorage):
         return r
 
     def write(self, envelope, timestamp):
-        qid = self._call('write', None, self.inner.write, envelope, timestamp)
+        # a backend may make the new message visible (and announce it) before write() returns: the harness learns the id
+        # at that instant (see the redis backend) and completes the bookkeeping here otherwise
+        self.qw.writing[gevent.getcurrent()] = (envelope, timestamp)
+        try:
+            qid = self._call('write', None, self.inner.write, envelope, timestamp)
+        finally:
+            self.qw.writing.pop(gevent.getcurrent(), None)
         self.qw.on_write(qid, envelope, timestamp)
         return qid
 
@@ -229,6 +235,7 @@ class QueueWorld(object):
         self.envs = []                 # keep envelope objects alive (id() stability)
         self.env_qid = {}              # id(envelope object) -> qid
         self.ledger = {}               # qid -> dict(sender, original, outstanding(list), delivered, failed{rcpt:reply}, bounce(bool), removed, attempts)
+        self.writing = {}              # greenlet -> (envelope, timestamp) of the store.write() it is inside
         self.due = {}
         self.known = set()
         self.inflight = {}             # qid -> number of running attempts
@@ -254,6 +261,8 @@ class QueueWorld(object):
     # ---- storage callbacks
     def on_write(self, qid, envelope, timestamp):
         qid = self.sid(qid)
+        if qid in self.ledger and self.env_qid.get(id(envelope)) == qid:
+            return          # registered already when the backend made it visible
         self.envs.append(envelope)
         self.env_qid[id(envelope)] = qid
         self.total_messages += 1
@@ -499,6 +508,13 @@ class QueueWorld(object):
             from fakes.fakeredis import make_storage
             st, _fake = make_storage(w, prefix=self.cfg.get('redis_prefix', 'slimta:'))
             self.fake_redis = st.redis
+
+            def early(key, st=st):
+                cur = self.writing.get(gevent.getcurrent())
+                if cur is not None:
+                    k = key.decode('ascii') if isinstance(key, bytes) else key
+                    self.on_write(k[len(st.prefix):], cur[0], cur[1])
+            st.redis.on_new_hash = early
             cmds = set(self.cfg.get('redis_yields', ()))
             if cmds:
                 # each listed command is a network round trip during which other greenlets may run
